@@ -131,6 +131,14 @@ def replay_c17(case):
             cens.append([[0, 0]] * 3)
         elif geom == "near":
             cens.append([cg.dyadic(rng.uniform(-0.3, 0.3), 8) for _ in range(3)])
+        elif geom == "isosceles":
+            # copies of ONE shell at equal distances from the first in different directions (equivalent pairs of a molecule)
+            if k == 0:
+                iso_d = rng.choice([0.75, 1.0, 1.5])
+                cens.append([cg.dyadic(rng.uniform(-1, 1), 8) for _ in range(3)])
+            else:
+                dirs = [(1, 0, 0), (0, 1, 0), (0, 0, -1), (0, -1, 0)]
+                cens.append([cg.dyadic(cg.val(c_) + iso_d * u_, 12) for c_, u_ in zip(cens[0], dirs[(k - 1) % 4])])
         elif geom == "farnear":            # distinct centres 1e-3..1e-5 bohr apart, tens of bohr from the coordinate origin
             if k == 0:
                 far0 = cg.far_origin(rng)
@@ -145,8 +153,10 @@ def replay_c17(case):
         K = 1 if case["contr"] == "primitive" else rng.randint(2, 3)
         M = 1 if case["contr"] != "generalized" else 2
         lo, hi = (0.1, 10.0) if eri else ((5.0, 50.0) if geom == "farnear" and k == 0 else (0.05, 50.0))
-        l = rng.randint(0, 2 if eri else 3)
-        if geom in ("dependent", "farnear") and k % 2:
+        l = rng.randint(1 if geom == "isosceles" else 0, 2 if eri else 3)
+        if geom == "isosceles" and k >= 1:
+            sh = dict(basis[0], center=cens[k])
+        elif geom in ("dependent", "farnear") and k % 2:
             sh = dict(basis[k - 1], center=cens[k])          # the same shell displaced by 1/64 bohr: nearly dependent
         else:
             sh = cg.shell(rng, l, K=K, M=M, typ=ty, lo=lo, hi=hi, cen=cens[k])
@@ -223,7 +233,7 @@ def run(pid, tier, seed, only_case=None):
             rest = [c for c in small if c not in must and (c["id"] + seed) % 3 == 0]
             cases = must + rest[:8]
     else:
-        st = run_classes(ctx, 5, ["coincident", "near", "separated", "dependent", "farnear"], ["primitive", "contracted", "generalized"])
+        st = run_classes(ctx, 5, ["coincident", "near", "separated", "dependent", "farnear", "isosceles"], ["primitive", "contracted", "generalized"])
         cases = []
         for n, s in enumerate(st):
             c = {"id": n + 1, "types": s["types"], "geom": s["geom"], "contr": s["contr"], "seed": seed}
